@@ -21,10 +21,18 @@ import (
 //
 // Arrays, maps, and channels are not supported.
 func Unmarshal(result Result, value any, settings ...ContextApply) error {
-	return unmarshal(result, value, settings...)
+	return unmarshal(0, result, value, settings...)
 }
 
-func unmarshal(result Result, value any, settings ...ContextApply) error {
+// A self-referential target type (a struct with a field of its own type) makes
+// every level run its tag queries again; stop instead of recursing forever.
+const maxUnmarshalDepth = 500
+
+func unmarshal(depth int, result Result, value any, settings ...ContextApply) error {
+	if depth > maxUnmarshalDepth {
+		return fmt.Errorf("unmarshal target is nested more than %d levels deep", maxUnmarshalDepth)
+	}
+
 	val := reflect.ValueOf(value)
 
 	if !val.IsValid() {
@@ -49,17 +57,17 @@ func unmarshal(result Result, value any, settings ...ContextApply) error {
 			return fmt.Errorf("struct unmarshals must be given a pointer to the struct")
 		}
 
-		return unmarshalStruct(result, val.Addr(), settings...)
+		return unmarshalStruct(depth, result, val.Addr(), settings...)
 	}
 
 	if kind == reflect.Slice {
-		return unmarshalSlice(result, val, settings...)
+		return unmarshalSlice(depth, result, val, settings...)
 	}
 
 	return fmt.Errorf("unsupported data type")
 }
 
-func unmarshalStruct(result Result, val reflect.Value, settings ...ContextApply) error {
+func unmarshalStruct(depth int, result Result, val reflect.Value, settings ...ContextApply) error {
 	cursor, ok := result.(NodeSet)
 
 	if !ok || len(cursor) != 1 {
@@ -103,7 +111,7 @@ func unmarshalStruct(result Result, val reflect.Value, settings ...ContextApply)
 		} else {
 			ptr := reflect.New(fieldType)
 			ptr.Elem().Set(reflect.Zero(fieldType))
-			err = unmarshal(result, ptr.Interface(), settings...)
+			err = unmarshal(depth+1, result, ptr.Interface(), settings...)
 			if err != nil {
 				return err
 			}
@@ -119,7 +127,7 @@ func unmarshalStruct(result Result, val reflect.Value, settings ...ContextApply)
 	return nil
 }
 
-func unmarshalSlice(result Result, val reflect.Value, settings ...ContextApply) error {
+func unmarshalSlice(depth int, result Result, val reflect.Value, settings ...ContextApply) error {
 	nodeset, ok := result.(NodeSet)
 
 	if !ok {
@@ -144,7 +152,7 @@ func unmarshalSlice(result Result, val reflect.Value, settings ...ContextApply) 
 			ptr := reflect.New(sliceElement)
 			ptr.Elem().Set(reflect.Zero(sliceElement))
 
-			err := unmarshal(NodeSet{i}, ptr.Interface(), settings...)
+			err := unmarshal(depth+1, NodeSet{i}, ptr.Interface(), settings...)
 			if err != nil {
 				return err
 			}
